@@ -896,17 +896,42 @@ func (env *Env) call(x *ast.CallExpr) (tv, error) {
 			argIns, argFr = env.argInstr, env.argFrame
 		}
 		ci, ok := argIns.(ssa.CallInstruction)
-		lit, isLit := x.Args[0].(*ast.BasicLit)
-		if !ok || argFr == nil || !isLit {
-			return tv{}, env.errf(x, "callarg(i) needs a literal index and a call site")
+		if !ok || argFr == nil {
+			return tv{}, env.errf(x, "callarg needs a call site")
 		}
-		i, _ := strconv.Atoi(lit.Value)
 		c := ci.Common()
-		if !c.IsInvoke() && c.Signature().Recv() != nil {
-			i++
+		i := -1
+		switch a := x.Args[0].(type) {
+		case *ast.BasicLit:
+			// callarg(i): by position (receiver not counted)
+			i, _ = strconv.Atoi(a.Value)
+			if !c.IsInvoke() && c.Signature().Recv() != nil {
+				i++
+			}
+		case *ast.Ident:
+			// callarg(name): the argument passed for the callee's parameter of that name (independent of the order of
+			// the parameters; a parameter renamed since the contracts were written is found under its new name)
+			callee := c.StaticCallee()
+			if callee == nil {
+				return tv{}, env.errf(x, "callarg(%s) needs a statically known callee", a.Name)
+			}
+			want := a.Name
+			if nw, ok := shapeRenames[funcName(callee)][want]; ok {
+				want = nw
+			}
+			for k, p := range callee.Params {
+				if p.Name() == want {
+					i = k
+				}
+			}
+			if i < 0 {
+				return tv{}, env.errf(x, "%s has no parameter %s", funcName(callee), a.Name)
+			}
+		default:
+			return tv{}, env.errf(x, "callarg needs an index or a parameter name")
 		}
 		if i < 0 || i >= len(c.Args) {
-			return tv{}, env.errf(x, "the call has no argument %s", lit.Value)
+			return tv{}, env.errf(x, "the call has no such argument")
 		}
 		return tv{t: argFr.val(c.Args[i]), typ: c.Args[i].Type()}, nil
 	case "old":
